@@ -327,6 +327,10 @@ func reqTerm(q Request) string {
 
 func ckeyTerm(cluster string) (string, bool) {
 	parts := strings.Split(cluster, "|")
+	if cluster == "PassthroughCluster" || cluster == "BlackHoleCluster" {
+		// statically configured clusters: port 0, no subset, the name as host
+		return rec("Build_ckey", "ck_port", vlib.N(0), "ck_subset", vlib.Str(""), "ck_host", vlib.Str(cluster)), true
+	}
 	if len(parts) != 4 || parts[0] != "outbound" {
 		return "", false
 	}
@@ -786,6 +790,12 @@ func delKV(l [][2]string, k string) [][2]string {
 // genRequest: either random from the literal pools or built to satisfy one match block of the
 // VirtualService, then possibly perturbed in one place (near miss).
 func genRequest(r *vlib.Rand, rules []Rule, c Ctx) Request {
+	return genRequestFor(r, rules, c, nil)
+}
+
+// genRequestFor: with target != nil the request is built to satisfy exactly that match block
+// (no perturbation); otherwise as genRequest.
+func genRequestFor(r *vlib.Rand, rules []Rule, c Ctx, target *Match) Request {
 	q := Request{Path: vlib.Pick(r, gPaths), Method: vlib.Pick(r, gMethods), Authority: vlib.Pick(r, gAuths), Scheme: "http"}
 	if c.TLS {
 		q.Scheme = "https"
@@ -804,7 +814,10 @@ func genRequest(r *vlib.Rand, rules []Rule, c Ctx) Request {
 	for _, ru := range rules {
 		ms = append(ms, ru.Matches...)
 	}
-	if len(ms) > 0 && r.Chance(70) {
+	if target != nil {
+		ms = []Match{*target}
+	}
+	if len(ms) > 0 && (target != nil || r.Chance(70)) {
 		m := ms[r.Intn(len(ms))]
 		if m.Uri != nil && m.Uri.K >= 2 {
 			q.Path = satisfy(r, *m.Uri, q.Path)
@@ -834,7 +847,7 @@ func genRequest(r *vlib.Rand, rules []Rule, c Ctx) Request {
 		if m.Scheme != nil {
 			q.Scheme = satisfy(r, *m.Scheme, q.Scheme)
 		}
-		if r.Chance(45) { // near miss
+		if target == nil && r.Chance(45) { // near miss
 			switch r.Intn(6) {
 			case 0:
 				q.Path = nearMiss(r, q.Path)
@@ -1033,12 +1046,15 @@ func TestGen(t *testing.T) {
 		"contexts through the real BuildHTTPRoutesForVirtualService; one or two cases per VirtualService with its 8 requests (those the known finding applies to are a case of their own); requests are built to satisfy " +
 		"a match block and then perturbed in one place, or drawn from the literal pools. Non-trivial = the VirtualService has at least one " +
 		"match block with a request condition and the request reaches some route or rule. " +
-		"B: generated service registries + VirtualServices through the real BuildSidecarOutboundVirtualHosts; one case per " +
-		"scenario with authorities from the service FQDNs, VirtualService hosts and the Kubernetes alt-domain family (short name, name.ns, " +
-		"name.ns.svc, absolute FQDN, with and without port; namespaces ns / ns-x / other); non-trivial = the scenario has a VirtualService. " +
-		"C: 2-3 Gateways on one workload and HTTP port with disjoint server hosts, 1-3 VirtualServices bound to one or several of them with " +
-		"per-match gateways conditions, through the real BuildHTTPRoutes (router, http.80); 3 requests per server host; non-trivial = a " +
-		"VirtualService is bound to several Gateways or uses per-match gateways. " +
+		"B/C are organised around a feature table (drawn first, recorded in every case sample under 'features' and as B:/C: tags). " +
+		"B (sidecar): listener port 80 / 8080; outboundTrafficPolicy ALLOW_ANY / REGISTRY_ONLY; declared HTTP vs sniffed service ports; VirtualService " +
+		"host forms exact-service / exact-non-registry / mixed-case / wildcard matching services / wildcard matching none, mixed in one host list in " +
+		"every order; two VirtualServices naming one host; exact vs wildcard ownership; observed through the real BuildSidecarOutboundVirtualHosts " +
+		"AND one real BuildHTTPRoutes call carrying the plain port route name together with sniffed host:port names (sorted, sometimes reversed); " +
+		"authorities: service FQDNs, VirtualService hosts, wildcard instances, unknown hosts, the Kubernetes alt-domain family with and without port. " +
+		"C (gateway): 1-3 Gateways with one or two servers each on one HTTP port (disjoint hosts), VirtualServices spanning servers / bound to several " +
+		"Gateways and mesh, per-match gateways incl. mesh-only blocks (rules filtered per context), several VirtualServices per host; one request per " +
+		"(host, rule) plus near misses; through the real BuildHTTPRoutes (router, http.80). Delegates are not generated. " +
 		"D: 13-40 real routes of several VirtualServices concatenated (catch-alls in the middle) through the real SortVHostRoutes."
 	seed := vlib.Seed()
 	id := 0
